@@ -5,8 +5,9 @@
 import YaraModel.Lemmas.ReAlgebra
 import YaraModel.Lemmas.ReChain
 import YaraModel.Lemmas.ReEmit
-import YaraModel.Lemmas.ReAtoms
+import YaraModel.Lemmas.ReAtomPos
 import YaraModel.Lemmas.ReAtomEntry
+import YaraModel.Lemmas.ReScan
 namespace YaraModel.C02
 open YaraModel.Re
 
@@ -212,23 +213,27 @@ open YaraModel.ReVm YaraModel.ReEmit in
 /-- instance: `41 ( 42 | ?3 44 ) [1-2] ~45` on `41 13 44 00 00 46`: the VM run on the emitted code reports lengths 6 and 5 -/
 example : exec { code := (emitCode false (.cat (.lit 0x41) (.cat (.alt (.lit 0x42) (.cat (.masked 0x03 0x0F) (.lit 0x44))) (.cat (.rangeAny 1 2 false) (.notLit 0x45))))).toArray, entry := 0, buf := #[0x41, 0x13, 0x44, 0x00, 0x00, 0x46], start := 0, fl := { exhaustive := true, dotall := true } } = .done 6 [5, 6] := by decide
 
-open YaraModel.ReAtoms in
-/-- `reAtoms_cover_partial`: the atoms extracted for a hex string / regular expression cover its matches.  `chosen q r` is the
-    model of `_yr_atoms_extract_from_re` + `_yr_atoms_choose` (the walk over the expression with the sliding 4-node window
-    and `_yr_atoms_trim`, the tree of OR / AND / leaf nodes, the choice by quality) for an ARBITRARY quality function `q` —
-    i.e. for every window and every OR child the heuristic could pick.  For ALL expressions (every node kind: runs through
-    groups, `+` bodies and the first copies of counted repeats; alternations; anything else ends a run), ALL buffers, in byte
-    mode without nocase: every match [p, q') of the expression contains an occurrence of one of the chosen masked atoms
-    (every node of the atom: byte & mask = value) — unless nothing was chosen, and then parser.c gives the string the
-    zero-length atom that is a candidate at every offset.  The model with the quality function of atoms.c is compared with
-    the atoms the real compiler inserts (hook H3) and with the code positions of their automaton entries on every
-    generated non-literal unchained string.
-    Full statement aimed at (not yet proved): the same after `_yr_atoms_expand_wildcards`, for the case variants of nocase
-    strings and the widened atoms of wide strings, and with the POSITION — the atom occurs where the backward code, run
-    from the atom's code position, reaches p (at specification level: `decompose`). -/
-theorem reAtoms_cover_partial (q : Atom → Int) (fl : Flags) (hw : fl.wide = false) (hn : fl.nocase = false) (buf : Bytes) (r : Re)
-    (p q' : Nat) (hm : Re.Matches fl buf r p q') : chosen q r = [] ∨ ∃ a ∈ chosen q r, Occurs buf a p q' :=
-  chosen_cover q hw hn r hm
+open YaraModel.ReAtoms YaraModel.ReEmit in
+/-- `reAtoms_cover`: the atoms extracted for a hex string cover its matches, at the positions verification starts from.
+    `atomsOf q m r` is the model of what `yr_ac_add_string` receives for the string (walk with the sliding window, trim,
+    OR / AND tree, choice, wildcard expansion, wide / nocase variants, or the zero-length atom) for an ARBITRARY quality
+    function `q`, i.e. every choice the heuristic could make.  For ALL hex ASTs (nibble / byte / `??` masks), buffers and
+    matches [p, q') of the pattern: one of these byte sequences occurs LITERALLY in the buffer at a position `s` inside the
+    match such that — for the node `y` the atom begins at, with `c.fill y = r` —
+      * the forward code position the model records for the atom (`fwdRef`, compared with the real automaton entries) is the
+        entry point `holePos c 0` of `verify_from_atom_sound`, and the backward one (`bwdRef`) is `bwdPos y c 0` behind the
+        forward code and its MATCH;
+      * the part of the pattern before `y` matches buf[p, s), `y` matches at s, and the rest matches up to q'
+    (or the string has the zero-length atom).  With VM completeness (not yet proved) this yields: every match is verified
+    from its atom. -/
+theorem reAtoms_cover (q : Atom → Int) (m : Mods) (fl : Flags) (buf : Bytes) (hw1 : fl.wide = true → m.wide = true)
+    (hw0 : fl.wide = false → (m.wide = false ∨ m.ascii = true)) (hn : m.nocase = fl.nocase) (r : Re) (hh : HexAst r) (hmk : MaskOK r)
+    (p q' : Nat) (hm : Re.Matches fl buf r p q') :
+    ∃ x ∈ atomsOf q m r, ∃ s, p ≤ s ∧ s + x.1.length ≤ q' ∧ BytesAt buf x.1 s ∧
+      (x.1 = [] ∨ ∃ c y, AtomLeaf y ∧ c.fill y = r ∧ fwdRef r x.2 = some (holePos c 0) ∧
+        bwdRef r x.2 = some (bwdPos y c 0 + ReAtoms.clen false r + 1) ∧
+        c.Before fl buf y p s ∧ ∃ e, Re.Matches fl buf y s e ∧ c.After fl buf y e q') :=
+  flat_cover q m fl buf hw1 hw0 hn r (HexAst.flat hh) hh.wf hmk hm
 
 open YaraModel.ReAtoms in
 /-- instance: `10 ?? 41 42 43 ?? 20 30` — the heuristic of atoms.c picks the interior window `41 42 43` (leaf 2) -/
@@ -262,5 +267,27 @@ open YaraModel.ReEmit in
     code position 11 (+ 15 bytes of forward code = the 26 the real automaton entry shows) -/
 example : holePos (.catR (.lit 0x10) (.catR .any (.catL .hole (.cat (.lit 0x42) (.cat (.lit 0x43) (.cat .any (.cat (.lit 0x20) (.lit 0x30)))))))) 0 = 3 ∧
     bwdPos (.lit 0x41) (.catR (.lit 0x10) (.catR .any (.catL .hole (.cat (.lit 0x42) (.cat (.lit 0x43) (.cat .any (.cat (.lit 0x20) (.lit 0x30)))))))) 0 = 11 := by decide
+
+open YaraModel.ReVm YaraModel.ReEmit YaraModel.ReScan in
+/-- `hex_scan_sound`: the scan of one hex string in one block is sound, end of the chain candidates → verification → match
+    callback → match list (Model/ReScan.lean: `_yr_scan_verify_re_match` with the forward run from the entry's forward code and
+    the exhaustive backward run from its backward code, `_yr_scan_match_callback`, `_yr_scan_add_match_to_list`).  For ALL hex
+    ASTs, buffers, flags and ANY list of candidates whose automaton entries point to the code positions of atom nodes of
+    the pattern (`CandOK`: what `reAtoms_cover` shows the atoms model records, compared with the real entries by the checks)
+    or are the zero-length atom — no hypothesis on HOW the automaton found them: every (offset, length) in the resulting
+    match list is a match of the pattern, buf[offset, offset+length).
+    Not yet proved: completeness of the chain (every match is in the list): `reAtoms_cover` supplies the atom occurrence and
+    the split of the match; what is missing is VM completeness (the runs from the atom report lb and lf) and the automaton
+    contract for masked atoms; the fast matcher `yr_re_fast_exec`; chains of more than two pieces. -/
+theorem hex_scan_sound (r : Re) (hh : HexAst r) (hszf : (emit false r 0).1.length < 32000) (hszb : (emit true r 0).1.length < 32000)
+    (buf : Bytes) (fl : VmFlags) (fuel : Nat) (cands : List Cand) (hc : ∀ c ∈ cands, CandOK r c ∧ c.off ≤ buf.size) :
+    ∀ x ∈ scanHex r buf fl fuel cands, Re.Matches (specFlagsG fl) buf r x.1 (x.1 + x.2) :=
+  scanHex_sound r hh.wf hszf hszb buf fl fuel cands hc
+
+open YaraModel.ReScan in
+/-- instance: `41 ?? 43` over `x A b C A - C`; the atom `41` (leaf 0: forward entry 0, backward entry 5 = behind the node in the
+    backward code `43 ?? 41`) is reported at offsets 1 and 4: the match list is [(1,3), (4,3)] -/
+example : scanHex (.cat (.lit 0x41) (.cat .any (.lit 0x43))) #[0x78, 0x41, 0x62, 0x43, 0x41, 0x2d, 0x43] {} 100000
+    [⟨0, some 5, 1⟩, ⟨0, some 5, 4⟩] = [(1, 3), (4, 3)] := by decide
 
 end YaraModel.C02
